@@ -82,6 +82,15 @@ func Catalog() []VarSpec {
 	pn := vs("F.PN", TInt, reflect.Int64, "ptr-num", true, func() *Path { return P("F.PN") })
 	pn.Ind = true
 	c = append(c, pn)
+	pb := vs("F.PB", TBool, reflect.Bool, "ptr-bool", false, func() *Path { return P("F.PB") })
+	pb.Ind = true
+	c = append(c, pb)
+	ab := vs("F.AnyB", TBool, reflect.Bool, "iface-bool", false, func() *Path { return P("F.AnyB") })
+	ab.Ind = true
+	c = append(c, ab)
+	mb := vs(`F.MAny["b"]`, TBool, reflect.Bool, "iface-bool", false, func() *Path { return P("F.MAny", "b") })
+	mb.Ind = true
+	c = append(c, mb)
 	// slices
 	c = append(c, vs("F.Arr[0]", TInt, reflect.Int64, "slice-const", true, func() *Path { return P("F.Arr", 0) }))
 	c = append(c, vs("F.Arr[1]", TInt, reflect.Int64, "slice-const", true, func() *Path { return P("F.Arr", 1) }))
@@ -168,6 +177,10 @@ func GenState(r *rand.Rand) State {
 			MInt: map[string]int{"k1": int(si())},
 			Idx:  int64(r.Intn(2)), Key: []string{"k1", "k2"}[r.Intn(2)],
 		}
+		pbv := sb()
+		f.PB = &pbv
+		f.AnyB = sb()
+		f.MAny = map[string]interface{}{"b": sb(), "n": si()}
 		return f
 	}
 	st := State{
@@ -200,6 +213,8 @@ type Gen struct {
 	IntLits []int64
 	Faulty  bool // allow operations that can fail at run time (variable divisors, variable indices)
 	NoAmp   bool // leave & and | out (keeps K1 entirely out of a check)
+	// ShortCircuit, when set, is the state on which decided && / || get a failing right operand
+	ShortCircuit State
 }
 
 func (g *Gen) pick(ty Ty, needDirect bool) (VarSpec, bool) {
@@ -227,7 +242,7 @@ func (g *Gen) floatLit() *Expr {
 }
 
 func (g *Gen) strLit() *Expr {
-	return LitS([]string{"", "a", "ab", "k1", "x y", "q\"uote", "it's", "tab\there", "é✓", "back\\slash", "nl\nx"}[g.R.Intn(11)])
+	return LitS([]string{"", "a", "ab", "k1", "x y", "q\"uote", "it's", "tab\there", "é✓", "back\\slash", "nl\nx", "caf\xe9", "\xff\x80z"}[g.R.Intn(13)])
 }
 
 // direct reports whether e can be passed as a method argument / assigned (not read via pointer).
@@ -406,9 +421,30 @@ func (g *Gen) Expr(ty Ty, d int) *Expr {
 	}
 	if leaf {
 		if v, ok := g.pick(TBool, false); ok && r.Intn(3) != 0 {
-			return v.E()
+			e := v.E()
+			if v.Ind {
+				e.GK = int(reflect.Ptr)
+			}
+			return e
 		}
 		return g.cmp(0)
+	}
+	if g.ShortCircuit != nil && r.Intn(5) == 0 {
+		// a decided && / || must not evaluate its right operand: make that operand fail
+		l := g.Expr(TBool, d-1)
+		if v, err := ref.Eval(l, g.ShortCircuit); err == nil && v.K == TBool {
+			fails := []*Expr{
+				Bin(">", TBool, VarE(P("F.Arr", 99), TInt, reflect.Int64), LitI(0)),
+				Bin("==", TBool, Bin("%", TInt, LitI(1), Bin("-", TInt, VarE(P("F.Idx"), TInt, reflect.Int64), VarE(P("F.Idx"), TInt, reflect.Int64))), LitI(0)),
+				CallE(tool(), "IsPos", TBool, reflect.Bool, CallE(tool(), "Boom", TInt, reflect.Int64, LitI(1), LitI(1))),
+				Bin("<", TBool, VarE(P("F.M", "nokey"), TInt, reflect.Int64), LitI(1)),
+			}
+			op := "||"
+			if !v.B {
+				op = "&&"
+			}
+			return Bin(op, TBool, l, fails[r.Intn(len(fails))])
+		}
 	}
 	switch k := r.Intn(14); {
 	case k < 5:
